@@ -190,6 +190,12 @@ def _callee_seq(F, f):
                 nm = re.sub(r"<.*?>", "", nm)
                 # a call to the type's own method: the sibling's counterpart is compared as its own pair
                 nm = re.sub(r"^reader::byte_(region::ByteRegion|slice::ByteSlice)::(::)?", "Self::", nm)
+                # a constructor function whose body is nothing but the struct literal is that struct literal
+                rf = c.get("rfn")
+                if rf is not None and rf != f["id"]:
+                    inner = [m_ for m_ in hir_walk(F.tree(rf)) if m_.get("k") in ("call", "struct", "match", "if", "loop")]
+                    if len(inner) == 1 and inner[0].get("k") == "struct":
+                        nm = "struct " + re.sub(r"<.*", "", inner[0]["path"].split("::")[-1])
                 out.append(nm)
         elif n.get("k") == "struct":
             out.append("struct " + re.sub(r"<.*", "", n["path"].split("::")[-1]))
